@@ -54,9 +54,25 @@ func genChainProg(r *rand.Rand, nchains int, kinds []string) *ChainProg {
 			}
 			levels[i] = lv
 		}
+		if ci == 0 {
+			// the first chain always crosses all three packages
+			for i := range levels {
+				levels[i] = min(i, 2)
+			}
+		}
 		names := make([]string, n+1) // exported entry name of each frame; names[n] = terminal
 		for i := range names {
 			names[i] = fmt.Sprintf("ZqC%dF%d%s", ci, i, randAlnum(r, 5))
+		}
+		// The first frame of the chain in each package has the same name in every package: one
+		// original identifier with a different obfuscated spelling per package in a single trace.
+		sameName := fmt.Sprintf("ZqC%dSame%s", ci, randAlnum(r, 5))
+		seenLevel := map[int]bool{}
+		for i := 0; i < n; i++ {
+			if !seenLevel[levels[i]] {
+				seenLevel[levels[i]] = true
+				names[i] = sameName
+			}
 		}
 		// terminal function lives in the last frame's package
 		lastPkg := pkgs[levels[n-1]]
